@@ -5,6 +5,7 @@ import RjModel.Props.C06
 import RjModel.Props.C10
 import RjModel.Props.C11
 import RjModel.Props.C13
+import RjModel.Props.C14
 import RjModel.Props.C15
 import RjModel.Props.C16
 import RjModel.Model.ParseSettings
